@@ -97,4 +97,21 @@ CHECKS = {
                 'two fix: commits (log-normal KDE Jacobian, docstring) precede this check.',
         'technique': 'Coq proof (Coquelicot is_derive, ln/exp algebra) + CoqInterval-certified correspondence',
     },
+    'C05': {
+        'text': 'Machine-checked proof (Properties/C05.v) over a term-level real-valued model of the population models: '
+                'exp of each term is the documented density (Gaussian, log-normal, Gaussian truncated at zero with Phi '
+                'defined by an integral, standard normal for non-centred models, point mass for pooled/heterogeneous); '
+                'the sensitivities w.r.t. the individual parameter, mean and standard deviation are the derivatives '
+                '(is_derive, incl. the truncated Gaussian); supplied upstream sensitivities are propagated by the chain '
+                'rule through psi = mu + sigma eta and psi = exp(mu + sigma eta); sums over any number of individuals '
+                'lift term derivatives to the flattened gradient. Tied to /repo on every run: log-likelihood, '
+                'individual parameters and the separate / flattened / hierarchical sensitivities of 7 model kinds '
+                '(n_dim 1-3) and of compositions, in the flat / matrix / tensor layouts, are certified by CoqInterval '
+                '(integrals enclosed by integral_intro); the three layouts must agree bit for bit.',
+        'note': 'Trusted: Coq kernel, stdlib, Coquelicot, CoqInterval, ' + STD_AXIOMS + '; hand-written '
+                'Model/PopModels.v; harness/popspec.py assembles the terms into chi\'s output positions (this placement '
+                'is the specification, stated in the property, not a theorem); two fix: commits (heterogeneous tensor '
+                'layout, TruncatedGaussianModel.compute_individual_parameters) precede this check.',
+        'technique': 'Coq proof (Coquelicot is_derive, chain rule, RInt-defined Phi) + CoqInterval-certified correspondence',
+    },
 }
